@@ -264,15 +264,22 @@ class NoFieldInput(symval.Node):
         self.keys = {k: ctx.new("p", "bool") for k in ("ya", "yb", "yc")}
         self.poison = ctx.new("b", "bool")
         self.x = ctx.new("i", "int")
+        # definition order: the holder / decoder is created after `hold_at` of the subclasses (A, B, C) exist, and a first
+        # (warm-up) call happens when `warm` of them exist (4: no earlier call at all)
+        self.hold_at = ctx.sel(4)
+        self.warm = ctx.sel(5)
 
     def make(self, env):
-        return {k: bool(env[v]) for k, v in self.keys.items()}, bool(env[self.poison])
+        return ({k: bool(env[v]) for k, v in self.keys.items()}, bool(env[self.poison]),
+                pick(env[self.hold_at], 4), pick(env[self.warm], 5))
 
 
-def build_nofield(style, supertypes):
+def build_nofield(style, supertypes, mixin=True, hold_at=0, warm=4):
     """Base(x) <- A(ya required) <- C(yc required); Base <- B(yb required).  A.__post_init__ rejects x == 13 with an
-    exception type of its own (a constructor may reject an input with any exception)."""
-    bases = (DataClassDictMixin,)
+    exception type of its own (a constructor may reject an input with any exception).  The decoder (holder class / codec) is
+    created once `hold_at` subclasses exist, a first call is made once `warm` subclasses exist; the rest is defined later."""
+    mbases = (DataClassDictMixin,)
+    bases = mbases if mixin else ()
     disc = Discriminator(include_subtypes=True, include_supertypes=supertypes)
     ns = lambda q: {"__module__": __name__, "__qualname__": q}
     nsb = ns("NBase")
@@ -280,34 +287,54 @@ def build_nofield(style, supertypes):
         nsb["Config"] = type("Config", (BaseConfig,), {"discriminator": Discriminator(include_subtypes=True)})
     Base = dataclasses.make_dataclass("NBase", [("x", int)], bases=bases, namespace=nsb)
     globals()["NBase"] = Base
+    classes = {"Base": Base}
+    box = {}
 
     def post_init(self):
         if self.x == 13:
             raise Poison(self.x)
 
-    nsa = ns("NA")
-    nsa["__post_init__"] = post_init
-    A = dataclasses.make_dataclass("NA", [("ya", int)], bases=(Base,), namespace=nsa)
-    globals()["NA"] = A
-    B = dataclasses.make_dataclass("NB", [("yb", int)], bases=(Base,), namespace=ns("NB"))
-    globals()["NB"] = B
-    C = dataclasses.make_dataclass("NC", [("yc", int)], bases=(A,), namespace=ns("NC"))
-    globals()["NC"] = C
-    if style == "config":
-        dec = Base.from_dict
-    elif style == "annotated":
-        H = dataclasses.make_dataclass("NHolder", [("v", typing.Annotated[Base, disc])], bases=bases, namespace=ns("NHolder"))
-        globals()["NHolder"] = H
-        dec = lambda d: H.from_dict({"v": d}).v
-    else:
-        dec = BasicDecoder(typing.Annotated[Base, disc]).decode
-    return {"Base": Base, "A": A, "B": B, "C": C}, dec
+    def def_a():
+        nsa = ns("NA")
+        nsa["__post_init__"] = post_init
+        classes["A"] = dataclasses.make_dataclass("NA", [("ya", int)], bases=(Base,), namespace=nsa)
+        globals()["NA"] = classes["A"]
+
+    def def_b():
+        classes["B"] = dataclasses.make_dataclass("NB", [("yb", int)], bases=(Base,), namespace=ns("NB"))
+        globals()["NB"] = classes["B"]
+
+    def def_c():
+        classes["C"] = dataclasses.make_dataclass("NC", [("yc", int)], bases=(classes["A"],), namespace=ns("NC"))
+        globals()["NC"] = classes["C"]
+
+    def mk_dec():
+        if style == "config":
+            box["dec"] = Base.from_dict
+        elif style == "annotated":
+            H = dataclasses.make_dataclass("NHolder", [("v", typing.Annotated[Base, disc])], bases=mbases, namespace=ns("NHolder"))
+            globals()["NHolder"] = H
+            box["dec"] = lambda d: H.from_dict({"v": d}).v
+        else:
+            box["dec"] = BasicDecoder(typing.Annotated[Base, disc]).decode
+
+    for i, define in enumerate((def_a, def_b, def_c, None)):
+        if i == hold_at:
+            mk_dec()
+        if i == warm and "dec" in box:
+            try:
+                box["dec"]({"x": 5})
+            except Exception:
+                pass
+        if define:
+            define()
+    return classes, box["dec"]
 
 
 def nofield_main(S, env):
-    present, poison = S.node.make(env)
+    present, poison, hold_at, warm = S.node.make(env)
     with notrace():
-        classes, dec = build_nofield(S.fam_args["style"], S.fam_args["supertypes"])
+        classes, dec = build_nofield(S.fam_args["style"], S.fam_args["supertypes"], S.fam_args["mixin"], hold_at, warm)
         x = 13 if poison else 5
         d = {"x": x}
         for k, on in present.items():
@@ -329,9 +356,10 @@ def nofield_main(S, env):
         supert = S.fam_args["supertypes"] and S.fam_args["style"] != "config"
         if subs:
             if st != "ok":
-                return fail("C12/no-field:accepting-subclass-not-tried:%s" % type(r).__name__, input=d, accepting=subs, exc=r)
+                return fail("C12/no-field:accepting-subclass-not-tried:%s" % type(r).__name__, input=d, accepting=subs, exc=r,
+                            hold_at=hold_at, warm=warm)
             if type(r).__name__[1:] not in subs:
-                return fail("C12/no-field:wrong-class", input=d, got=type(r).__name__, accepting=subs)
+                return fail("C12/no-field:wrong-class", input=d, got=type(r).__name__, accepting=subs, hold_at=hold_at, warm=warm)
         elif supert:
             if st != "ok" or type(r) is not classes["Base"]:
                 return fail("C12/no-field:supertype-not-used", input=d, got=r)
@@ -349,8 +377,8 @@ def main(S, env):
 
 def twin(S, env):
     if S.variant == "nofield":
-        present, poison = S.node.make(env)
-        if not (poison and present["yb"] and present["ya"]):
+        present, poison, hold_at, warm = S.node.make(env)
+        if not (poison and present["yb"] and present["ya"] and hold_at == 1 and warm == 2):
             return True
         return not main(S, env)
     if S.variant == "step":
